@@ -943,6 +943,12 @@ class CodeGen:
             bubble += arg_bubble
 
         label = self.label_for_func(ConcreteSignature(name, tuple(concrete_params)))
+        if label == stdlib.stdlib_funcs.get(ConcreteSignature(ast.Ident('write'), (DataType.INT,))):
+            # write_int builds its digits downwards from its argument
+            # slot without checking for room, so make the enclosing
+            # overflow checks reserve space for the longest number.
+            digits = len(str(self.max_signed + 1))
+            self.checkpoints.update(self.stack.static_size + digits - self.word_size)
         yield asm.Add(self.fp, asm.State(self.fp), asm.IntLiteral(-offset))
         yield from self.goto(label)
         yield asm.Label(end_call)
